@@ -935,6 +935,12 @@ class Poly:
         args = [other, self] if reflected else [self, other]
         return model(ex, args, {}, node)
 
+    def sx_setitem(self, ex, idx, value, node):
+        if isinstance(idx, KeyTok):
+            # poly[key] = v  (ndarray field assignment): the same as poly.values[key] = v
+            return ValuesView(self).sx_setitem(ex, idx, value, node)
+        raise U("item assignment on a polynomial array", node)
+
     def sx_getitem(self, ex, idx, node):
         model = ex.reg.fn.get("numpoly.ndpoly.__getitem__")
         if model is None:
@@ -1136,6 +1142,10 @@ class ValuesView:
         from .logic import simplify_bool as _sb
         if _sb(same_pos) is True:
             return key.t
+        if key.poly._row is p._row and _sb(key.poly.N == p.N) is True and _sb(key.poly.D == p.D) is True:
+            # built from the other polynomial's exponent rows (ndpoly(exponents=x.exponents, ...)): same keys, same positions
+            ex.oblige(f"pre({ex.site('values_key')}).key_in_range", z3.And(key.t >= 0, key.t < p.N), "index", node)
+            return key.t
         # general case: the field whose exponent row equals the row the key encodes (must exist: KeyError otherwise)
         from .sortmodel import meq
         ctx = ex.ctx
@@ -1216,6 +1226,8 @@ def install(reg):
         if isinstance(a, list) and not a and not kw:
             e = Arr(shape1(z3.IntVal(0)), lambda i: z3.RealVal(0), "real", dt_float, Region("fresh"))
             return e
+        if isinstance(a, float) and not kw and len(args) == 1:
+            return Arr(shp0, lambda i: z3.RealVal(repr(a)), "real", dt_float, Region("fresh"))
         if isinstance(a, V.Seq) and not kw and len(args) == 1:
             probe = a.item(z3.Int(ex.ctx.fresh("probe")))
             if isinstance(probe, z3.ArithRef) and probe.is_int():
@@ -1268,6 +1280,38 @@ def install(reg):
                     ds.append(as_dtype(ex, a, node))
             return DTypeV(result_type(ds[0], ds[1]))
         raise U("numpy.result_type of these values", node)
+
+    fdiv = z3.Function("floor_div", R, R, R)
+
+    def ufunc_out(name, f):
+        @ax(f"numpy.{name}")
+        def _u(ex, args, kw, node, f=f, name=name):
+            out = kw.get("out")
+            extra = kw.get("**")
+            if len(args) == 2 and isinstance(out, Arr) and kw.get("where", True) is True and set(kw) <= {"out", "where", "**"} \
+                    and (extra is None or (isinstance(extra, dict) and not extra)):
+                site = ex.site(f"numpy.{name}")
+                res = elementwise(ex, f, list(args), "real", node)
+                ex.oblige(f"pre({site}).out_has_the_result_shape", out.shape == res.shape, "precondition", node)
+                g = _freeze(res)
+                out.write(ex, g, node)            # frame obligation: `out` must be a fresh array or a declared output
+                return out
+            raise U(f"numpy.{name} in this form", node)
+    ufunc_out("true_divide", lambda a, b: _num(a) / _num(b))
+    ufunc_out("floor_divide", lambda a, b: fdiv(_num(a), _num(b)))
+
+    @ax("numpy.common_type")
+    def common_type(ex, args, kw, node):
+        ct = z3.Function("common_type2", DT, DT, DT)
+        ds = []
+        for a in args:
+            if isinstance(a, (Arr, Poly)):
+                ds.append(a.dtype)
+            else:
+                raise U("numpy.common_type of this value", node)
+        if len(ds) == 2 and not kw:
+            return DTypeV(ct(ds[0], ds[1]))
+        raise U("numpy.common_type in this form", node)
 
     @ax("numpy.where")
     def where_(ex, args, kw, node):
